@@ -105,6 +105,25 @@ def slim_event(e):
     return e
 
 
+REQUIRED = {"call": ("api", "intent", "faulted"), "ret": ("api", "outcome", "cls", "pycomm", "result", "connected", "size", "faulted", "peer_gone"),
+            "tx": ("b", "choice"), "rx": ("b",), "lost": ("b",), "connect": ("host", "port"), "fault": ("at", "kind", "n"), "mutated": ("api",),
+            "socknew": (), "sockclose": (), "noreply": ()}
+
+
+def check_shape(tid, events):
+    """The trace format of schemas/session_trace.schema.json, checked without third-party packages: an event of an unknown kind
+    or without a required field is a harness failure, never a verdict."""
+    for i, e in enumerate(events):
+        k = e.get("k")
+        if k not in REQUIRED:
+            raise core.Machinery("trace %s event %d: unknown kind %r" % (tid, i + 1, k))
+        miss = [f for f in REQUIRED[k] if f not in e]
+        if miss:
+            raise core.Machinery("trace %s event %d (%s): missing %s" % (tid, i + 1, k, miss))
+        if k in ("tx", "rx", "lost") and not all(isinstance(x, int) and 0 <= x <= 255 for x in e["b"]):
+            raise core.Machinery("trace %s event %d: frame bytes out of range" % (tid, i + 1))
+
+
 def _worker(sc):
     from . import session
     try:
@@ -133,6 +152,7 @@ def run_all(ctx, scenarios, tag, procs=14, shard_bytes=5_000_000, shard_traces=6
     os.makedirs(tdir, exist_ok=True)
     docs = []
     for sc, tr in zip(scenarios, traces):
+        check_shape(sc["id"], tr["events"][1:])
         evs = [tla_cfg(sc, texts)] + [slim_event(e) for e in tr["events"][1:]]
         docs.append(json.dumps({"id": sc["id"], "events": evs}))
     shards, cur, size = [], [], 0
